@@ -119,6 +119,10 @@ class Weaver:
         if vis is not None:
             body = re.sub(r'^pub\s+', '', body) if vis == '' else body
         # token-level weaving
+        if trusted:
+            # N8: a trusted function keeps its signature and gets an assumed contract; the body is outside the verifier
+            body = self._drop_body(body, q)
+            self._rule('N8', q, 'fn body', 'external_body, assumed contract')
         body = self._weave_fn(body, q, ret, requires, ensures, loops or {}, before, after, head, mutself, decreases, ensures_raw, no_unwind)
         for a in attrs:
             body = '#[%s]\n' % a + body
@@ -261,6 +265,21 @@ class Weaver:
                         expect_field = True
                     x += 1
         return _apply_edits(body, edits)
+
+    def _drop_body(self, body, q):
+        toks = lex(body)
+        st = [t for t in toks if t.kind not in ('ws', 'comment')]
+        fi = next(i for i, t in enumerate(st) if t.text == 'fn')
+        i = fi
+        while i < len(st):
+            if st[i].text in ('(', '['):
+                i = match_index(st, i) + 1
+                continue
+            if st[i].text == '{':
+                break
+            i += 1
+        bc = match_index(st, i)
+        return body[:st[i].start] + '{ unimplemented!() }' + body[st[bc].end:]
 
     def _weave_fn(self, body, q, ret, requires, ensures, loops, before, after, head, mutself, decreases, ensures_raw, no_unwind):
         toks = lex(body)
